@@ -108,7 +108,7 @@ func judge(c *common.Ctx, j *judged) {
 	}
 	rp := j.p
 	// recursive programs are not shrunk: a reduction can remove the base case and the real evaluator has no step limit
-	if shrunk[key] < 2 && progSize(j.p) > 25 && !strings.HasPrefix(j.p.Family, "recursive") {
+	if shrunk[key] < 2 && progSize(j.p) > 25 && !strings.HasPrefix(j.p.Family, "recursive") && !strings.HasSuffix(j.p.Family, ":recursion") {
 		shrunk[key]++
 		rp = shrink(j.p, key, 300)
 		what += " | shrunk: " + progText(rp)
@@ -165,6 +165,11 @@ func verdict(j *judged) (string, string) {
 		}
 	}
 	if !valEq(j.o.V, j.ref) {
+		// a `set of` transform over the entries of a MAP does not drop equal results (over a list or a set it does): when the
+		// observed value is exactly what that predicts, the narrow key
+		if alt, _, err := refRunOpt(p, true); err == nil && !valEq(alt, j.ref) && valEq(j.o.V, alt) {
+			return "set-transform-over-map-keeps-duplicates", fmt.Sprintf("[%s] a transform typed `set of ...` over the entries of a map returned a set with equal members: EvaluateView returned %s, without duplicates it is %s (evalTransform appends every entry's result with AppendItemToValueList and only labels the list a set; over a list or a set setAppender drops equal results): %s", fam, j.o.V.String(), j.ref.String(), progText(p))
+		}
 		return "wrong-value:" + fam, fmt.Sprintf("[%s] EvaluateView returned %s, the expression semantics give %s: %s", fam, j.o.V.String(), j.ref.String(), progText(p))
 	}
 	// (2) no variable bound before the evaluation is bound to another value afterwards
@@ -372,6 +377,18 @@ func fixedBoolNot() *Prog {
 		Views: []View{{Name: "main", Params: []string{"p0"}, Body: eTr(eName("p0"), ".", "other", st...)}}}
 }
 
+// a `set of` transform over the entries of a map whose results are equal (fixed input of a known finding, every run)
+func fixedMapSetDup() *Prog {
+	rec := eTr(eName("p0"), ".", "other", sAssign("a", eLit(vInt(1))), sAssign("b", eLit(vInt(2))), sAssign("c", eLit(vInt(30))))
+	st := []Stmt{
+		sLet("m", rec),
+		sAssign("sizes", eTr(eName("m"), "e", "set", sAssign("big", eBin("GT", eAttr(eName("e"), "value"), eLit(vInt(9)))))),
+		sAssign("as_list", eTr(eName("m"), "e", "other", sAssign("big", eBin("GT", eAttr(eName("e"), "value"), eLit(vInt(9)))))),
+	}
+	return &Prog{Typed: true, Family: "map-set-transform-duplicates", Main: "main", Scope: []KV{{"p0", vInt(0)}},
+		Views: []View{{Name: "main", Params: []string{"p0"}, Body: eTr(eName("p0"), ".", "other", st...)}}}
+}
+
 // ---- fixed regression inputs of the two known findings, and a self-check of the oracle's attribution ----
 func fixedLetRebind() *Prog {
 	st := []Stmt{sLet("p1", eBin("ADD", eName("p1"), eLit(vInt(41)))), sAssign("a", eName("p1"))}
@@ -425,6 +442,24 @@ func oracleSelfCheck(c *common.Ctx) {
 	expect("nested-let: outer reads the inner let's value", with(2), "outer-let-rebound-by-nested-let")
 	expect("nested-let: outer reads some other value", with(3), "wrong-value:nested-let-rebinds-outer-let")
 	expect("nested-let: lexical value", with(1), "")
+	// the `set of` transform over map entries: the key is given to "every entry's result kept" and to nothing else
+	d := fixedMapSetDup()
+	dref, _, err := refRun(d)
+	dalt, _, err2 := refRunOpt(d, true)
+	if err != nil || err2 != nil || valEq(dref, dalt) {
+		c.Fail("oracle-self-check:reference", "the reference does not separate the fixed map-set-transform input from its variant", d)
+		return
+	}
+	dj := func(v *Val) *judged { return &judged{p: d, ref: dref, o: obs{V: v, Scope: []KV{{"p0", vInt(0)}}}} }
+	expect("map-set: every entry's result kept", dj(dalt), "set-transform-over-map-keeps-duplicates")
+	expect("map-set: no duplicates", dj(dref), "")
+	other := cloneVal(dalt)
+	for i := range other.M {
+		if other.M[i].Key == "as_list" {
+			other.M[i].V = vList([]*Val{})
+		}
+	}
+	expect("map-set: another wrong value", dj(other), "wrong-value:map-set-transform-duplicates")
 }
 
 // ---- the operator x kind x kind matrix (bounded-exhaustive, depth 1) ----
@@ -553,7 +588,7 @@ func main() {
 	}
 	c := common.Setup("C10")
 	defer c.Finish()
-	c.Res.Rule = "each case = (views of one transform application, caller's scope) evaluated by the real eval.EvaluateView in a worker subprocess; streams: typed programs over the modelled operators (lets reused by later statements, helper views, iterations whose scope variable shadows a binding), the Appendix-B shapes (a list bound once and concatenated twice; where/flatten/transform whose scope variable equals an outer binding; set-typed transforms producing duplicates; plus unions of unsorted int / string sets with repeats, transforms over map entries nested in a list transform, and where over a map by value / by key / nested with the variable shadowing a binding), the two fixed inputs of boolean `||` / `!`, the two fixed regression inputs of the known findings, terminating self- and mutually recursive views with the recursive call as an operand of each operator in turn (re-entrant evaluation of one AST node), call resolution (a view named like a native helper of eval.GoFuncMap or like .count, called from another view with its own / the helper's number of arguments and with arguments that would or would not fit the helper; helpers called directly with fitting arguments, a wrong number, wrong kinds, kinds the gate lets through, empty-list results; unknown names; each helper name at least once per run, and the callee also evaluated directly by EvaluateView on the same argument values), a let that takes a parameter's name / an outer let's name from inside a nested transform, the operator x kind x kind matrix at depth 1, all compositions of two operators over the literal pool whose value the reference defines (depth 2), blind mutants of typed programs (model comparison only); distinct = distinct program JSON; non-trivial = the main body applies at least one operator, transform or call"
+	c.Res.Rule = "each case = (views of one transform application, caller's scope) evaluated by the real eval.EvaluateView in a worker subprocess; streams: typed programs over the modelled operators (lets reused by later statements, helper views, iterations whose scope variable shadows a binding), the Appendix-B shapes (a list bound once and concatenated twice; where/flatten/transform whose scope variable equals an outer binding; set-typed transforms producing duplicates; plus unions of unsorted int / string sets with repeats, transforms over map entries nested in a list transform, and where over a map by value / by key / nested with the variable shadowing a binding), the two fixed inputs of boolean `||` / `!`, the two fixed regression inputs of the known findings, terminating self- and mutually recursive views with the recursive call as an operand of each operator in turn (re-entrant evaluation of one AST node), call resolution (a view named like a native helper of eval.GoFuncMap or like .count, called from another view with its own / the helper's number of arguments and with arguments that would or would not fit the helper; helpers called directly with fitting arguments, a wrong number, wrong kinds, kinds the gate lets through, empty-list results; unknown names; each helper name at least once per run, and the callee also evaluated directly by EvaluateView on the same argument values), dispatch per evaluation (one expression node - a binary operator of valueFunctions with several rows, a unary operator, .count, where, flatten, a transform, an attribute access - evaluated several times within one evaluation with operands whose kinds change A B A ..: inside a transform and a where over heterogeneous records, in the body of a view called several times in one body, in the body of a recursive view with the kinds chosen by the level; for the operators with one table row the second kind is a table hole), a let that takes a parameter's name / an outer let's name from inside a nested transform, the operator x kind x kind matrix at depth 1, all compositions of two operators over the literal pool whose value the reference defines (depth 2), blind mutants of typed programs (model comparison only); distinct = distinct program JSON; non-trivial = the main body applies at least one operator, transform or call"
 	par := 8
 
 	if c.Replay != "" {
@@ -592,7 +627,7 @@ func main() {
 
 	// 0. the fixed regression inputs of the two known findings (first, every run) and the oracle's self-check
 	oracleSelfCheck(c)
-	progs = append(progs, fixedLetRebind(), fixedNestedLet(), fixedBoolOr(), fixedBoolNot())
+	progs = append(progs, fixedLetRebind(), fixedNestedLet(), fixedBoolOr(), fixedBoolNot(), fixedMapSetDup())
 	// A. Appendix-B shapes + the let-rebinding family
 	nshape := 40 * scale
 	for i := 0; i < nshape; i++ {
@@ -611,6 +646,10 @@ func main() {
 	// A3. call resolution: views named like native helpers / builtins called from another view, helpers called directly
 	// (fitting and not), unknown names (calls.go)
 	progs = append(progs, callPrograms(c.Rng.Fork(), 30*scale)...)
+	// A4. dispatch per evaluation, not per node: one expression node evaluated several times within one evaluation with
+	// operands of different kinds, for every operator of the dispatch tables (dispatch.go); the fixed `x.note == null` input
+	progs = append(progs, fixedNoteNull())
+	progs = append(progs, dispatchPrograms(c.Rng.Fork(), 2*scale)...)
 	// B. typed programs
 	ntyped := 450 * scale
 	for i := 0; i < ntyped; i++ {
@@ -625,7 +664,7 @@ func main() {
 	nsrc := 0
 	why := map[string]int{}
 	for _, p := range append([]*Prog(nil), progs...) {
-		if p.Family == "let-rebinds-parameter" || p.Family == "nested-let-rebinds-outer-let" || p.Family == "boolean-or" || p.Family == "boolean-not" {
+		if p.Family == "let-rebinds-parameter" || p.Family == "nested-let-rebinds-outer-let" || p.Family == "boolean-or" || p.Family == "boolean-not" || p.Family == "map-set-transform-duplicates" {
 			continue
 		}
 		src, w := renderSource(p)
